@@ -371,130 +371,184 @@ pub fn in_assoc_region(v: &Value) -> bool {
 // syntax-trees: replay of the trees enumerated by TLC from spec/Syntax.tla
 // ------------------------------------------------------------------------------------------------
 
+/// Groups the round trips at all widths by outcome: [{"widths":[..], "err":bool, "reparsed":tree, "errors":[..]}]
+fn trips_of(p: &Parsed, project: &dyn Fn(&Trip) -> Value) -> (Vec<Value>, Vec<Trip>) {
+  let mut groups: Vec<(Vec<usize>, bool, Value, Vec<String>)> = vec![];
+  let mut trips = vec![];
+  for &width in WIDTHS.iter() {
+    let t = round_trip(p, width);
+    let err = !t.errors.is_empty();
+    let reparsed = project(&t);
+    if let Some(g) = groups.iter_mut().find(|g| g.1 == err && g.2 == reparsed) {
+      g.0.push(width);
+    } else {
+      groups.push((vec![width], err, reparsed, t.errors.iter().take(2).cloned().collect()));
+    }
+    trips.push(t);
+  }
+  (groups.into_iter().map(|(w, e, r, es)| json!({"widths": w, "err": e, "reparsed": r, "errors": es})).collect(), trips)
+}
+
+#[derive(Default)]
+struct TreeStats {
+  n: usize,
+  records: usize,
+  trips: usize,
+  real_fail: usize,
+  model_fail: usize,
+  in_region: usize,
+  n_bind_mismatch: usize,
+  n_not_parseable: usize,
+  n_print_drift: usize,
+  n_model_drift: usize,
+  bind_mismatch: Vec<Value>,
+  not_parseable: Vec<Value>,
+  print_drift: Vec<Value>,
+  model_verdict_drift: Vec<Value>,
+  out: Vec<String>,
+}
+
+fn push5(v: &mut Vec<Value>, x: Value) {
+  if v.len() < 5 {
+    v.push(x);
+  }
+}
+
+fn tree_case(case: &str, line: &str, st: &mut TreeStats) {
+  let c: Value = serde_json::from_str(line).unwrap();
+  st.n += 1;
+  let join = |k: &str| c[k].as_array().unwrap().iter().map(|x| x.as_str().unwrap()).collect::<Vec<_>>().join(" ");
+  let full = join("f");
+  let spec_print = join("p");
+  let src = wrap_expr(&full);
+  // (a) the fully parenthesised text, parsed by the real parser, is the spec's tree
+  let p = match parse_module(&src) {
+    Ok(p) if p.errors.is_empty() => p,
+    Ok(p) => {
+      st.n_not_parseable += 1;
+      push5(&mut st.not_parseable, json!({"src": full, "errors": p.errors}));
+      return;
+    }
+    Err(e) => {
+      st.n_not_parseable += 1;
+      push5(&mut st.not_parseable, json!({"src": full, "errors": [e]}));
+      return;
+    }
+  };
+  let orig_module = d_module(&p.heap, &p.module);
+  let orig = body_of(&orig_module);
+  if orig != c["t"] {
+    st.n_bind_mismatch += 1;
+    push5(&mut st.bind_mismatch, json!({"src": full, "spec": c["t"], "real": orig}));
+  }
+  if in_assoc_region(&orig) {
+    st.in_region += 1;
+  }
+  // (b) the verdict data: format at every width, re-parse, record both trees
+  let (trips, raw) = trips_of(&p, &|t: &Trip| {
+    // the wrapper around the expression is part of the tree that must survive
+    let r = if !t.errors.is_empty() || same_wrapper(&orig_module, &t.reparsed) { body_of(&t.reparsed) } else { json!({"k": "wrapper-changed"}) };
+    if r.is_null() { json!({"k": "missing"}) } else { r }
+  });
+  // (c) drift: the real printer's tokens against the spec's Print(t) (widest layout)
+  if let Some(t) = raw.last() {
+    let body_text = t
+      .output
+      .trim()
+      .strip_prefix("class Main {")
+      .and_then(|s| s.trim().strip_prefix("function f(a: int, b: int, c: int): int ="))
+      .and_then(|s| s.trim_end().strip_suffix('}'))
+      .unwrap_or("");
+    if strip_ws(body_text) != strip_ws(&spec_print) {
+      st.n_print_drift += 1;
+      push5(&mut st.print_drift, json!({"src": full, "spec": spec_print, "real": body_text.trim()}));
+    }
+  }
+  let any_fail = trips.iter().any(|t| t["err"] == true || t["reparsed"] != orig);
+  st.records += 1;
+  st.trips += trips.len();
+  st.out.push(json!({"case": case, "kind": "expr", "orig": orig, "trips": trips}).to_string());
+  if any_fail {
+    st.real_fail += 1;
+  }
+  let model_ok = c["ok"].as_bool().unwrap_or(true);
+  if !model_ok {
+    st.model_fail += 1;
+  }
+  if model_ok == any_fail {
+    st.n_model_drift += 1;
+    push5(
+      &mut st.model_verdict_drift,
+      json!({"src": full, "spec_print": spec_print, "model_round_trip_ok": model_ok, "real_round_trip_ok": !any_fail}),
+    );
+  }
+}
+
 /// input lines: {"t": tree, "p": [tokens of Print(t)], "f": [tokens, fully parenthesised], "ok": bool}
-/// trace lines: {"case", "kind":"expr", "src", "width", "orig", "reparsed", "err"}
+/// trace lines: {"case": "<prefix><line number>", "kind":"expr", "orig", "trips":[{"widths","err","reparsed","errors"}]}
 /// stdout: summary with drift counts
 pub fn trees(args: &[String]) {
   silence_panics();
   let input = arg(args, "--in").expect("--in");
   let out = arg(args, "--out").expect("--out");
   let prefix = arg_or(args, "--prefix", "t");
-  let all_widths = flag(args, "--all-widths");
-  let mut w = std::io::BufWriter::new(std::fs::File::create(&out).unwrap());
-  let f = std::io::BufReader::new(std::fs::File::open(&input).unwrap());
-  let (mut n, mut records) = (0usize, 0usize);
-  let mut bind_mismatch: Vec<Value> = vec![];
-  let mut not_parseable: Vec<Value> = vec![];
-  let mut print_drift: Vec<Value> = vec![];
-  let mut model_verdict_drift: Vec<Value> = vec![];
-  let (mut n_bind_mismatch, mut n_not_parseable, mut n_print_drift, mut n_model_drift) = (0, 0, 0, 0);
-  let (mut real_fail, mut model_fail, mut in_region) = (0usize, 0usize, 0usize);
-  for line in f.lines() {
-    let line = line.unwrap();
-    if line.trim().is_empty() {
-      continue;
-    }
-    let c: Value = serde_json::from_str(&line).unwrap();
-    n += 1;
-    let join = |k: &str| c[k].as_array().unwrap().iter().map(|x| x.as_str().unwrap()).collect::<Vec<_>>().join(" ");
-    let full = join("f");
-    let spec_print = join("p");
-    let src = wrap_expr(&full);
-    let case = format!("{prefix}{n}");
-    // (a) the fully parenthesised text, parsed by the real parser, is the spec's tree
-    let p = match parse_module(&src) {
-      Ok(p) if p.errors.is_empty() => p,
-      Ok(p) => {
-        n_not_parseable += 1;
-        if not_parseable.len() < 5 {
-          not_parseable.push(json!({"src": full, "errors": p.errors}));
-        }
-        continue;
-      }
-      Err(e) => {
-        n_not_parseable += 1;
-        if not_parseable.len() < 5 {
-          not_parseable.push(json!({"src": full, "errors": [e]}));
-        }
-        continue;
-      }
-    };
-    let orig_module = d_module(&p.heap, &p.module);
-    let orig = body_of(&orig_module);
-    if orig != c["t"] {
-      n_bind_mismatch += 1;
-      if bind_mismatch.len() < 5 {
-        bind_mismatch.push(json!({"src": full, "spec": c["t"], "real": orig}));
-      }
-    }
-    if in_assoc_region(&orig) {
-      in_region += 1;
-    }
-    // (b) the verdict data: format at every width, re-parse, record both trees
-    let mut seen: Vec<String> = vec![];
-    let mut any_fail = false;
-    for &width in WIDTHS.iter() {
-      let t = round_trip(&p, width);
-      if !all_widths && seen.contains(&t.output) {
-        continue;
-      }
-      // (c) drift: the real printer's tokens against the spec's Print(t) (widest layout only)
-      if width == 120 || (seen.is_empty() && WIDTHS.iter().all(|w| *w != 120)) {
-        let body_text = t
-          .output
-          .trim()
-          .strip_prefix("class Main {")
-          .and_then(|s| s.trim().strip_prefix("function f(a: int, b: int, c: int): int ="))
-          .and_then(|s| s.trim_end().strip_suffix('}'))
-          .unwrap_or("");
-        if strip_ws(body_text) != strip_ws(&spec_print) {
-          n_print_drift += 1;
-          if print_drift.len() < 5 {
-            print_drift.push(json!({"src": full, "spec": spec_print, "real": body_text.trim()}));
+  let lines: Vec<String> = std::io::BufReader::new(std::fs::File::open(&input).unwrap())
+    .lines()
+    .map(|l| l.unwrap())
+    .filter(|l| !l.trim().is_empty())
+    .collect();
+  let threads = std::thread::available_parallelism().map(|n| n.get()).unwrap_or(4).min(16).max(1);
+  let chunk = lines.len().div_ceil(threads).max(1);
+  let mut parts: Vec<TreeStats> = std::thread::scope(|s| {
+    let handles: Vec<_> = lines
+      .chunks(chunk)
+      .enumerate()
+      .map(|(k, ch)| {
+        let prefix = prefix.clone();
+        s.spawn(move || {
+          silence_panics();
+          let mut st = TreeStats::default();
+          for (i, line) in ch.iter().enumerate() {
+            tree_case(&format!("{prefix}{}", k * chunk + i + 1), line, &mut st);
           }
-        }
-      }
-      seen.push(t.output.clone());
-      let err = !t.errors.is_empty();
-      // the wrapper around the expression is part of the tree that must survive
-      let reparsed = if err || same_wrapper(&orig_module, &t.reparsed) { body_of(&t.reparsed) } else { json!({"k": "wrapper-changed"}) };
-      let reparsed = if reparsed.is_null() { json!({"k": "missing"}) } else { reparsed };
-      if err || reparsed != orig {
-        any_fail = true;
-      }
-      records += 1;
-      writeln!(
-        w,
-        "{}",
-        json!({"case": case, "kind": "expr", "src": full, "width": width, "orig": orig, "reparsed": reparsed, "err": err,
-               "errors": t.errors.iter().take(2).collect::<Vec<_>>()})
-      )
-      .unwrap();
+          st
+        })
+      })
+      .collect();
+    handles.into_iter().map(|h| h.join().unwrap()).collect()
+  });
+  let mut w = std::io::BufWriter::new(std::fs::File::create(&out).unwrap());
+  let mut t = TreeStats::default();
+  for p in parts.iter_mut() {
+    for l in p.out.drain(..) {
+      writeln!(w, "{l}").unwrap();
     }
-    if any_fail {
-      real_fail += 1;
-    }
-    let model_ok = c["ok"].as_bool().unwrap_or(true);
-    if !model_ok {
-      model_fail += 1;
-    }
-    if model_ok == any_fail {
-      n_model_drift += 1;
-      if model_verdict_drift.len() < 5 {
-        model_verdict_drift.push(json!({"src": full, "spec_print": spec_print, "model_round_trip_ok": model_ok, "real_round_trip_ok": !any_fail}));
-      }
-    }
+    t.n += p.n;
+    t.records += p.records;
+    t.trips += p.trips;
+    t.real_fail += p.real_fail;
+    t.model_fail += p.model_fail;
+    t.in_region += p.in_region;
+    t.n_bind_mismatch += p.n_bind_mismatch;
+    t.n_not_parseable += p.n_not_parseable;
+    t.n_print_drift += p.n_print_drift;
+    t.n_model_drift += p.n_model_drift;
+    for x in p.bind_mismatch.drain(..) { push5(&mut t.bind_mismatch, x); }
+    for x in p.not_parseable.drain(..) { push5(&mut t.not_parseable, x); }
+    for x in p.print_drift.drain(..) { push5(&mut t.print_drift, x); }
+    for x in p.model_verdict_drift.drain(..) { push5(&mut t.model_verdict_drift, x); }
   }
   w.flush().unwrap();
   println!(
     "{}",
     json!({
-      "trees": n, "records": records, "real_round_trip_failures": real_fail, "model_round_trip_failures": model_fail,
-      "in_assoc_region": in_region,
-      "not_parseable": n_not_parseable, "not_parseable_samples": not_parseable,
-      "bind_mismatch": n_bind_mismatch, "bind_mismatch_samples": bind_mismatch,
-      "print_drift": n_print_drift, "print_drift_samples": print_drift,
-      "model_verdict_drift": n_model_drift, "model_verdict_drift_samples": model_verdict_drift,
+      "trees": t.n, "records": t.records, "round_trips": t.trips,
+      "real_round_trip_failures": t.real_fail, "model_round_trip_failures": t.model_fail,
+      "in_assoc_region": t.in_region,
+      "not_parseable": t.n_not_parseable, "not_parseable_samples": t.not_parseable,
+      "bind_mismatch": t.n_bind_mismatch, "bind_mismatch_samples": t.bind_mismatch,
+      "print_drift": t.n_print_drift, "print_drift_samples": t.print_drift,
+      "model_verdict_drift": t.n_model_drift, "model_verdict_drift_samples": t.model_verdict_drift,
     })
   );
 }
@@ -503,14 +557,12 @@ pub fn trees(args: &[String]) {
 // syntax-modules: whole-module round trips (corpus files, generated modules, explicit files)
 // ------------------------------------------------------------------------------------------------
 
-fn module_records(case: &str, text: &str, w: &mut impl Write, all_widths: bool, stats: &mut ModStats) {
+fn module_records(case: &str, text: &str, w: &mut impl Write, stats: &mut ModStats) {
   let p = match parse_module(text) {
     Ok(p) if p.errors.is_empty() => p,
     Ok(p) => {
       stats.skipped_syntax_errors += 1;
-      if stats.skipped_samples.len() < 5 {
-        stats.skipped_samples.push(json!({"case": case, "errors": p.errors.iter().take(2).collect::<Vec<_>>()}));
-      }
+      push5(&mut stats.skipped_samples, json!({"case": case, "errors": p.errors.iter().take(2).collect::<Vec<_>>()}));
       return;
     }
     Err(e) => {
@@ -524,29 +576,17 @@ fn module_records(case: &str, text: &str, w: &mut impl Write, all_widths: bool, 
   if in_assoc_region(&orig) {
     stats.in_region += 1;
   }
-  let mut seen: Vec<String> = vec![];
-  for &width in WIDTHS.iter() {
-    let t = round_trip(&p, width);
-    if !all_widths && seen.contains(&t.output) {
-      continue;
-    }
-    seen.push(t.output.clone());
-    stats.records += 1;
-    let err = !t.errors.is_empty();
-    writeln!(
-      w,
-      "{}",
-      json!({"case": case, "kind": "module", "width": width, "orig": orig, "reparsed": t.reparsed, "err": err,
-             "errors": t.errors.iter().take(2).collect::<Vec<_>>()})
-    )
-    .unwrap();
-  }
+  let (trips, _) = trips_of(&p, &|t: &Trip| t.reparsed.clone());
+  stats.records += 1;
+  stats.trips += trips.len();
+  writeln!(w, "{}", json!({"case": case, "kind": "module", "orig": orig, "trips": trips})).unwrap();
 }
 
 #[derive(Default)]
 struct ModStats {
   modules: usize,
   records: usize,
+  trips: usize,
   in_region: usize,
   skipped_syntax_errors: usize,
   skipped_samples: Vec<Value>,
@@ -573,7 +613,6 @@ fn sam_files(dir: &str) -> Vec<String> {
 pub fn modules(args: &[String]) {
   silence_panics();
   let out = arg(args, "--out").expect("--out");
-  let all_widths = flag(args, "--all-widths");
   let mut w = std::io::BufWriter::new(std::fs::File::create(&out).unwrap());
   let mut stats = ModStats::default();
   let srcdir = arg(args, "--srcdir");
@@ -589,7 +628,7 @@ pub fn modules(args: &[String]) {
       for f in sam_files(d) {
         let text = std::fs::read_to_string(&f).unwrap();
         corpus_files += 1;
-        module_records(&f, &text, &mut w, all_widths, &mut stats);
+        module_records(&f, &text, &mut w, &mut stats);
         if k > 0 {
           for (i, v) in comment_variants(&text, k, &mut rng).into_iter().enumerate() {
             let case = format!("{f}#comment{i}");
@@ -597,9 +636,9 @@ pub fn modules(args: &[String]) {
               let name = format!("{}-comment{i}.sam", std::path::Path::new(&f).file_stem().unwrap().to_string_lossy());
               let path = format!("{d}/{name}");
               std::fs::write(&path, &v).unwrap();
-              module_records(&path, &v, &mut w, all_widths, &mut stats);
+              module_records(&path, &v, &mut w, &mut stats);
             } else {
-              module_records(&case, &v, &mut w, all_widths, &mut stats);
+              module_records(&case, &v, &mut w, &mut stats);
             }
           }
         }
@@ -609,7 +648,7 @@ pub fn modules(args: &[String]) {
   if let Some(files) = arg(args, "--files") {
     for f in files.split(',') {
       let text = std::fs::read_to_string(f).unwrap();
-      module_records(f, &text, &mut w, all_widths, &mut stats);
+      module_records(f, &text, &mut w, &mut stats);
     }
   }
   let n: usize = arg_or(args, "--gen", "0").parse().unwrap();
@@ -625,13 +664,13 @@ pub fn modules(args: &[String]) {
       if i < 2 {
         gen_samples.push(text.clone());
       }
-      module_records(&path, &text, &mut w, all_widths, &mut stats);
+      module_records(&path, &text, &mut w, &mut stats);
     }
   }
   w.flush().unwrap();
   println!(
     "{}",
-    json!({"corpus_files": corpus_files, "modules": stats.modules, "records": stats.records, "in_assoc_region": stats.in_region,
+    json!({"corpus_files": corpus_files, "modules": stats.modules, "records": stats.records, "round_trips": stats.trips, "in_assoc_region": stats.in_region,
            "skipped_syntax_errors": stats.skipped_syntax_errors, "skipped_samples": stats.skipped_samples,
            "generated": n, "generated_samples": gen_samples})
   );
@@ -708,25 +747,26 @@ fn comment_variants(text: &str, k: usize, rng: &mut Rng) -> Vec<String> {
 // syntax-strings: string literal contents enumerated by TLC (spec/Syntax.tla, StrLits)
 // ------------------------------------------------------------------------------------------------
 
-/// input lines: {"raw": "<characters between the quotes>", "ok": model verdict}; the literal is put in operand
-/// positions of a small module; trace lines as for expressions
+/// input lines: {"raw": [characters between the quotes], "ok": model verdict}; the literal is put in operand
+/// position of a small module; trace lines as for modules
 pub fn strings(args: &[String]) {
   silence_panics();
   let input = arg(args, "--in").expect("--in");
   let out = arg(args, "--out").expect("--out");
   let mut w = std::io::BufWriter::new(std::fs::File::create(&out).unwrap());
   let f = std::io::BufReader::new(std::fs::File::open(&input).unwrap());
-  let (mut n, mut records, mut skipped, mut real_fail, mut model_fail, mut drift) = (0, 0, 0, 0, 0, 0);
+  let (mut n, mut records, mut trips_n, mut skipped, mut real_fail, mut model_fail, mut drift) = (0, 0, 0, 0, 0, 0, 0);
   let mut drift_samples = vec![];
+  let mut samples = vec![];
   for line in f.lines() {
     let line = line.unwrap();
     if line.trim().is_empty() {
       continue;
     }
     let c: Value = serde_json::from_str(&line).unwrap();
-    let raw = c["raw"].as_str().unwrap();
+    let raw: String = c["raw"].as_array().unwrap().iter().map(|x| x.as_str().unwrap()).collect();
     n += 1;
-    let e = format!("Process.println(\"{raw}\" :: \"x\")");
+    let e = string_case_expr(&raw);
     let src = wrap_expr(&e);
     let p = match parse_module(&src) {
       Ok(p) if p.errors.is_empty() => p,
@@ -735,27 +775,14 @@ pub fn strings(args: &[String]) {
         continue;
       }
     };
-    let orig_module = d_module(&p.heap, &p.module);
-    let mut any_fail = false;
-    let mut seen: Vec<String> = vec![];
-    for &width in WIDTHS.iter() {
-      let t = round_trip(&p, width);
-      if seen.contains(&t.output) {
-        continue;
-      }
-      seen.push(t.output.clone());
-      let err = !t.errors.is_empty();
-      if err || t.reparsed != orig_module {
-        any_fail = true;
-      }
-      records += 1;
-      writeln!(
-        w,
-        "{}",
-        json!({"case": format!("s{n}"), "kind": "module", "src": e, "width": width, "orig": orig_module, "reparsed": t.reparsed, "err": err,
-               "errors": t.errors.iter().take(2).collect::<Vec<_>>()})
-      )
-      .unwrap();
+    let orig = d_module(&p.heap, &p.module);
+    let (trips, _) = trips_of(&p, &|t: &Trip| t.reparsed.clone());
+    let any_fail = trips.iter().any(|t| t["err"] == true || t["reparsed"] != orig);
+    records += 1;
+    trips_n += trips.len();
+    writeln!(w, "{}", json!({"case": format!("s{n}"), "kind": "module", "orig": orig, "trips": trips})).unwrap();
+    if samples.len() < 3 && raw.contains('"') {
+      samples.push(e.clone());
     }
     if any_fail {
       real_fail += 1;
@@ -766,17 +793,54 @@ pub fn strings(args: &[String]) {
     }
     if model_ok == any_fail {
       drift += 1;
-      if drift_samples.len() < 5 {
-        drift_samples.push(json!({"raw": raw, "model_round_trip_ok": model_ok, "real_round_trip_ok": !any_fail}));
-      }
+      push5(&mut drift_samples, json!({"raw": raw, "model_round_trip_ok": model_ok, "real_round_trip_ok": !any_fail}));
     }
   }
   w.flush().unwrap();
   println!(
     "{}",
-    json!({"literals": n, "records": records, "not_parseable": skipped, "real_round_trip_failures": real_fail,
-           "model_round_trip_failures": model_fail, "model_verdict_drift": drift, "model_verdict_drift_samples": drift_samples})
+    json!({"literals": n, "records": records, "round_trips": trips_n, "not_parseable": skipped, "real_round_trip_failures": real_fail,
+           "model_round_trip_failures": model_fail, "model_verdict_drift": drift, "model_verdict_drift_samples": drift_samples,
+           "samples": samples})
   );
+}
+
+/// the expression a string literal body is tested in
+pub fn string_case_expr(raw: &str) -> String {
+  format!("Process.println(\"{raw}\" :: \"x\")")
+}
+
+// ------------------------------------------------------------------------------------------------
+// syntax-probe: which revision of the printer is this?  (selects the revision of spec/Syntax.tla
+// the drift comparison is made against; never a verdict)
+// ------------------------------------------------------------------------------------------------
+
+pub fn probe(_args: &[String]) {
+  silence_panics();
+  let body = |e: &str| -> String {
+    parse_module(&wrap_expr(e))
+      .ok()
+      .and_then(|p| format_at(&p, 120).ok())
+      .map(|o| strip_ws(o.split_once("int =").map(|x| x.1).unwrap_or("")))
+      .unwrap_or_default()
+  };
+  let mut fixes = String::new();
+  if body("a * (b / c)").starts_with("a*(b/c)") {
+    fixes.push('2');
+  }
+  if body("!(!a)").starts_with("!(!a)") {
+    fixes.push('3');
+  }
+  if body("(a * b) :: c").starts_with("(a*b)::c") {
+    fixes.push('4');
+  }
+  if body("\"q\\\"q\"").starts_with("\"q\\\"q\"") {
+    fixes.push('5');
+  }
+  if body("(a.foo) < b").starts_with("(a.foo)<b") {
+    fixes.push('6');
+  }
+  println!("{}", json!({"fixes": if fixes.is_empty() { "none".to_string() } else { fixes }}));
 }
 
 // ------------------------------------------------------------------------------------------------
